@@ -1017,4 +1017,143 @@ theorem limFrame (hc : ClockOk W) (E : Engine σ) (hE : E.FailStop) (D : Int) (l
   · intro s n h; exact interp_failstop coreP coreW hr hw _ (hE.1 s.e n) s h
   · intro s d h; exact interp_failstop coreP coreW hr hw _ (hE.2 s.e d) s h
 
+/-! ### a scripted world that satisfies the clock assumptions by construction (for the examples) -/
+
+/-- scripted answers; when a list is exhausted: nothing ever becomes ready (a wait sits out its timeout),
+`send` accepts everything, `recv` has nothing (EAGAIN) -/
+structure TW where
+  clock : Int := 0
+  /-- readiness, and after how many ms the wait comes back when it reports ready (capped by its timeout) -/
+  waits : List (Bool × Nat) := []
+  sends : List SendAns := []
+  recvs : List RecvAns := []
+  deriving DecidableEq, Repr
+
+def TW.elapsed (ready : Bool) (el : Nat) (t : Int) : Int :=
+  if t < 0 then el else if ready then min (el : Int) t else t
+
+def TW.world : World TW where
+  wait s _ t :=
+    match s.waits with
+    | (rdy, el) :: rest =>
+      let ready := rdy || decide (t < 0)        -- an unlimited wait only comes back ready
+      (ready, { s with waits := rest, clock := s.clock + TW.elapsed ready el t })
+    | [] => (decide (t < 0), { s with clock := s.clock + TW.elapsed (decide (t < 0)) 0 t })
+  send s bs :=
+    match s.sends with
+    | a :: rest => (a, { s with sends := rest })
+    | [] => (.accept bs.length, s)
+  recv s _ :=
+    match s.recvs with
+    | a :: rest => (a, { s with recvs := rest })
+    | [] => (.fail 11, s)
+  now s := s.clock
+
+theorem TW.elapsed_bounds (ready : Bool) (el : Nat) (t : Int) :
+    0 ≤ TW.elapsed ready el t ∨ t < 0 ∧ 0 ≤ TW.elapsed ready el t := by
+  unfold TW.elapsed
+  split
+  · right; exact ⟨by assumption, Int.natCast_nonneg el⟩
+  · left; split <;> omega
+
+theorem TW.clockOk : ClockOk TW.world where
+  wait_mono := by
+    intro w d t
+    have h : ∀ r el, 0 ≤ TW.elapsed r el t := fun r el => by
+      rcases TW.elapsed_bounds r el t with h | h
+      · exact h
+      · exact h.2
+    simp only [TW.world]
+    split
+    · have := h (‹Bool› || decide (t < 0)) ‹Nat›; simp only; omega
+    · have := h (decide (t < 0)) 0; simp only; omega
+  wait_le := by
+    intro w d t ht
+    have h : ∀ r el, TW.elapsed r el t ≤ t := fun r el => by
+      unfold TW.elapsed
+      rw [if_neg (by omega)]
+      split <;> omega
+    simp only [TW.world]
+    split
+    · have := h (‹Bool› || decide (t < 0)) ‹Nat›; simp only; omega
+    · have := h (decide (t < 0)) 0; simp only; omega
+  send_now := by
+    intro w bs
+    simp only [TW.world]
+    split <;> rfl
+  recv_now := by
+    intro w n
+    simp only [TW.world]
+    split <;> rfl
+
+theorem TW.unlimitedReady : UnlimitedReady TW.world := by
+  intro w d t ht
+  simp only [TW.world]
+  split <;> simp [ht]
+
+/-! ### COUNTER-MODEL (not the library, not used by any driver): `BioRead` that does not write the shrunken
+budget back - the seeded change `seeded/C07_r4_agentH/patch.diff`.  Everything above the callback is copied
+unchanged from `Model/Tls.lean`. -/
+namespace Seeded
+
+/-- `BioRead` of the seeded change: `sockpuppet::Receive(fd, …, remainingTime)` without `UnderDeadline` -/
+def bioRead (W : World ω) (s : St σ ω) (n : Nat) : Out Bytes × St σ ω :=
+  let r := Tls.bioRead W s n
+  (r.1, { r.2 with g := { r.2.g with remainingTime := s.g.remainingTime } })
+
+def interp (W : World ω) (s : St σ ω) : EngProg σ → Out (SslAns × Bytes) × St σ ω
+  | .ret ans out e' => (.ok (ans, out), { s with e := e' })
+  | .bioRead n k =>
+    match bioRead W s n with
+    | (.ok bs, s') => interp W s' (k (some bs))
+    | (.exn e, s') => interp W (stash s' e) (k none)
+    | (.abort m, s') => (.abort m, s')
+  | .bioWrite bs k =>
+    match bioWrite W s bs with
+    | (.ok n, s') => interp W s' (k (some n))
+    | (.exn e, s') => interp W (stash s' e) (k none)
+    | (.abort m, s') => (.abort m, s')
+
+def readRound (C : Cfg) (W : World ω) (E : Engine σ) (size : Nat) (i : Nat) (s : St σ ω) : Option (Out Bytes) × St σ ω :=
+  match interp W s (E.sslRead s.e size) with
+  | (.exn e, s') => (some (.exn e), s')
+  | (.abort m, s') => (some (.abort m), s')
+  | (.ok (ans, out), s1) =>
+    let s1 := noteCall E s1 true [] ans
+    match ans with
+    | .done _ => (some (.ok out), s1)
+    | _ =>
+      match handleResult W s1 ans with
+      | (.exn e, s2) => (some (.exn e), s2)
+      | (.abort m, s2) => (some (.abort m), s2)
+      | (.ok false, s2) => (some (.ok []), s2)
+      | (.ok true, s2) =>
+        if i = 0 ∧ C.asserts then (some (.abort "assert(i < handshakeStepsMax) in Read"), s2)
+        else (none, s2)
+
+def readLoop (C : Cfg) (W : World ω) (E : Engine σ) (size : Nat) : Nat → St σ ω → Out Bytes × St σ ω
+  | 0, s => (.ok [], s)
+  | i + 1, s =>
+    match readRound C W E size i s with
+    | (some o, s') => (o, s')
+    | (none, s') => readLoop C W E size i s'
+
+def tlsRead (C : Cfg) (W : World ω) (E : Engine σ) (s : St σ ω) (size : Nat) : Out Bytes × St σ ω :=
+  match handleLastError W s with
+  | (.ok true, s') => readLoop C W E size C.stepsMax s'
+  | (.ok false, s') => (.ok [], s')
+  | (.exn e, s') => (.exn e, s')
+  | (.abort m, s') => (.abort m, s')
+
+def receiveT (C : Cfg) (W : World ω) (E : Engine σ) (s : St σ ω) (size : Nat) (timeout : Int) : Out Bytes × St σ ω :=
+  match tlsRead C W E (setTimeout s timeout) size with
+  | (.ok [], s') =>
+    if timeout < 0 ∧ C.asserts then (.abort "assert(timeout.count() >= 0) in Receive", s')
+    else if C.fixRecvReset ∧ s'.g.lastError = .wantRead ∧ E.initFinished s'.e then
+      (.ok [], setLastError s' .none)
+    else (.ok [], s')
+  | r => r
+
+end Seeded
+
 end SockModel.Tls
